@@ -163,5 +163,5 @@ pub fn run(args: &[String]) {
     writeln!(f, "{}", json!({"ev": "crash", "id": scen[*i]["id"], "status": describe_status(*st)})).unwrap();
   }
   let panics = res.lines.iter().filter(|l| l.contains("\"ev\":\"panic\"")).count();
-  eprintln!("{}", json!({"kind": "summary", "scenarios": scen.len(), "panics": panics, "crashes": res.crashes.len()}));
+  eprintln!("{}", json!({"kind": "summary", "scenarios": scen.len(), "panics": panics, "crashes": res.crashes.len(), "truncated": res.truncated}));
 }
